@@ -83,6 +83,8 @@ def rcode(result):
     if s.startswith("Ok"):
         return "ok"
     for k in ("Send", "Timeout", "Receive", "Downcast", "Join", "Runtime", "MailboxCapacity"):
+        pass
+    for k in ("Send", "Timeout", "Receive", "Downcast", "Join", "Runtime", "MailboxCapacity"):
         if s.startswith("Err(%s" % k):
             return k.lower()
     return s
